@@ -1,4 +1,191 @@
-import CosetModel.Api
+/-
+  C19 — builders apply exactly the documented effect of each call, in any order.
+-/
+import CosetModel.Builders
 namespace Coset.Props.C19
+open Coset
+
+/-! ### HeaderBuilder: effect of every call, field by field (frame + update) -/
+@[simp] theorem hdr_fields (a c ct k i p cs r) :
+    (Header.mk a c ct k i p cs r).alg = a ∧ (Header.mk a c ct k i p cs r).crit = c ∧ (Header.mk a c ct k i p cs r).contentType = ct ∧
+    (Header.mk a c ct k i p cs r).keyId = k ∧ (Header.mk a c ct k i p cs r).iv = i ∧ (Header.mk a c ct k i p cs r).partialIv = p ∧
+    (Header.mk a c ct k i p cs r).counterSignatures = cs ∧ (Header.mk a c ct k i p cs r).rest = r := ⟨rfl, rfl, rfl, rfl, rfl, rfl, rfl, rfl⟩
+
+/-- the documented effect of each `HeaderBuilder` call on a header (`none` = refused with a panic). -/
+def headerEffect (h : Header) : HeaderOp → Option Header
+  | .keyId b => some (.mk h.alg h.crit h.contentType b h.iv h.partialIv h.counterSignatures h.rest)
+  | .algorithm k => some (.mk (some (.assigned k)) h.crit h.contentType h.keyId h.iv h.partialIv h.counterSignatures h.rest)
+  | .addCritical k => some (.mk h.alg (h.crit ++ [.assigned k]) h.contentType h.keyId h.iv h.partialIv h.counterSignatures h.rest)
+  | .addCriticalLabel l => some (.mk h.alg (h.crit ++ [l]) h.contentType h.keyId h.iv h.partialIv h.counterSignatures h.rest)
+  | .contentFormat k => some (.mk h.alg h.crit (some (.assigned k)) h.keyId h.iv h.partialIv h.counterSignatures h.rest)
+  | .contentType t => some (.mk h.alg h.crit (some (.text t)) h.keyId h.iv h.partialIv h.counterSignatures h.rest)
+  | .iv b => some (.mk h.alg h.crit h.contentType h.keyId b [] h.counterSignatures h.rest)
+  | .partialIv b => some (.mk h.alg h.crit h.contentType h.keyId [] b h.counterSignatures h.rest)
+  | .addCounterSignature s => some (.mk h.alg h.crit h.contentType h.keyId h.iv h.partialIv (h.counterSignatures ++ [s]) h.rest)
+  | .value l v => if 1 ≤ l ∧ l ≤ 7 then none
+                  else some (.mk h.alg h.crit h.contentType h.keyId h.iv h.partialIv h.counterSignatures (h.rest ++ [(.int l, v)]))
+  | .textValue l v => some (.mk h.alg h.crit h.contentType h.keyId h.iv h.partialIv h.counterSignatures (h.rest ++ [(.text l, v)]))
+
+theorem header_value_guard (l : Int) : headerValueReserved l = true ↔ (1 ≤ l ∧ l ≤ 7) := by
+  simp [headerValueReserved, Registry.toI64, Reg.headerParameter, Gen.HeaderParameter, Gen.idx_HeaderParameter_Alg,
+    Gen.idx_HeaderParameter_CounterSignature]
+
+/-- every `HeaderBuilder` call has exactly its documented effect (and `value` panics exactly on labels 1..7). -/
+theorem header_apply (h : Header) (op : HeaderOp) :
+    (∀ h', headerEffect h op = some h' → HeaderOp.apply h op = .next h') ∧
+    (headerEffect h op = none → ∃ s, HeaderOp.apply h op = .panic s) := by
+  cases h with
+  | mk a c ct k i p cs r =>
+    cases op <;> simp [headerEffect, HeaderOp.apply, Header.setKeyId, Header.setAlg, Header.setCrit, Header.setContentType,
+      Header.setIv, Header.setPartialIv, Header.setCounterSignatures, Header.setRest]
+    case value l v =>
+      by_cases hl : 1 ≤ l ∧ l ≤ 7
+      · have := (header_value_guard l).mpr hl; simp [hl, this]
+      · have : headerValueReserved l = false := by
+          cases hg : headerValueReserved l
+          · rfl
+          · exact absurd ((header_value_guard l).mp hg) hl
+        simp [this]
+        intro h1; omega
+
+/-- a built header never carries both an IV and a Partial IV, whatever the call sequence. -/
+def IvExclusive (h : Header) : Prop := h.iv = [] ∨ h.partialIv = []
+
+theorem iv_exclusive_step (h : Header) (op : HeaderOp) (h' : Header) (hi : IvExclusive h) (hs : HeaderOp.apply h op = .next h') :
+    IvExclusive h' := by
+  cases h with
+  | mk a c ct k i p cs r =>
+    cases op <;> simp [HeaderOp.apply, Header.setKeyId, Header.setAlg, Header.setCrit, Header.setContentType,
+      Header.setIv, Header.setPartialIv, Header.setCounterSignatures, Header.setRest] at hs <;>
+      (try (subst hs; simpa [IvExclusive] using hi)) <;> (try (subst hs; simp [IvExclusive]))
+    case value l v =>
+      split at hs
+      · simp at hs
+      · simp at hs; subst hs; simpa [IvExclusive] using hi
+
+theorem iv_exclusive (ops : List HeaderOp) : ∀ (h : Header) (i : Nat), IvExclusive h →
+    ∀ h', (runOps HeaderOp.apply ops h i).1 = .next h' → IvExclusive h' := by
+  induction ops with
+  | nil => intro h i hi h' hr; simp [runOps] at hr; subst hr; exact hi
+  | cons op ops ih =>
+    intro h i hi h' hr
+    simp only [runOps] at hr
+    cases hs : HeaderOp.apply h op with
+    | next h1 => simp only [hs] at hr; exact ih h1 (i + 1) (iv_exclusive_step h op h1 hi hs) h' hr
+    | fail n => simp [hs] at hr
+    | panic s => simp [hs] at hr
+
+theorem iv_exclusive_from_new (ops : List HeaderOp) (h' : Header) (hr : (runOps HeaderOp.apply ops Header.default 0).1 = .next h') :
+    ¬ (h'.iv ≠ [] ∧ h'.partialIv ≠ []) := by
+  have := iv_exclusive ops Header.default 0 (Or.inl rfl) h' hr
+  unfold IvExclusive at this
+  intro ⟨h1, h2⟩; cases this <;> contradiction
+
+/-! ### setters: a later call overrides an earlier one; calls on different fields commute -/
+theorem header_setter_overrides (h : Header) (b1 b2 : Bytes) :
+    (runOps HeaderOp.apply [.keyId b1, .keyId b2] h 0).1 = (runOps HeaderOp.apply [.keyId b2] h 0).1 := by
+  cases h; simp [runOps, HeaderOp.apply, Header.setKeyId]
+
+theorem header_setters_commute (h : Header) (b : Bytes) (k : Nat) :
+    (runOps HeaderOp.apply [.keyId b, .algorithm k] h 0).1 = (runOps HeaderOp.apply [.algorithm k, .keyId b] h 0).1 := by
+  cases h; simp [runOps, HeaderOp.apply, Header.setKeyId, Header.setAlg]
+
+theorem sign1_setter_frame (m : CoseSign1) (b : Bytes) :
+    Sign1Op.apply m (.payload b) = .next { m with payload := some b } ∧ Sign1Op.apply m (.signature b) = .next { m with signature := b } := ⟨rfl, rfl⟩
+
+/-- setting a protected header discards any previously retained wire bytes. -/
+theorem protected_discards_original (m : CoseSign1) (h : Header) :
+    Sign1Op.apply m (.protected_ h) = .next { m with protected_ := .mk none h } := rfl
+theorem protected_discards_original_all (h : Header) (s : CoseSignature) (sg : CoseSign) (mc : CoseMac) (m0 : CoseMac0)
+    (e : CoseEncrypt) (e0 : CoseEncrypt0) (r : CoseRecipient) (sp : SuppPubInfo) :
+    SignatureOp.apply s (.protected_ h) = .next (.mk (.mk none h) s.unprotected s.signature) ∧
+    SignOp.apply sg (.protected_ h) = .next { sg with protected_ := .mk none h } ∧
+    MacOp.apply mc (.protected_ h) = .next { mc with protected_ := .mk none h } ∧
+    Mac0Op.apply m0 (.protected_ h) = .next { m0 with protected_ := .mk none h } ∧
+    EncryptOp.apply e (.protected_ h) = .next { e with protected_ := .mk none h } ∧
+    Encrypt0Op.apply e0 (.protected_ h) = .next { e0 with protected_ := .mk none h } ∧
+    RecipientOp.apply r (.protected_ h) = .next (.mk (.mk none h) r.unprotected r.ciphertext r.recipients) ∧
+    SuppOp.apply sp (.protected_ h) = .next { sp with protected_ := .mk none h } := ⟨rfl, rfl, rfl, rfl, rfl, rfl, rfl, rfl⟩
+
+/-- adders append in call order. -/
+theorem adders_append (m : CoseSign) (s1 s2 : CoseSignature) :
+    (runOps SignOp.apply [.addSignature s1, .addSignature s2] m 0).1 = .next { m with signatures := m.signatures ++ [s1, s2] } := by
+  simp [runOps, SignOp.apply]
+
+/-! ### guards -/
+theorem key_param_guard (l : Int) : keyParamReserved l = true ↔ (0 ≤ l ∧ l ≤ 5) := by
+  constructor
+  · intro h
+    simp only [keyParamReserved, Registry.fromI64, Reg.keyParameter, Gen.KeyParameter] at h
+    rw [Option.isSome_iff_exists] at h
+    obtain ⟨k, hk⟩ := h
+    rw [List.findIdx?_eq_some_iff_getElem] at hk
+    obtain ⟨hlt, hp, _⟩ := hk
+    simp at hlt
+    have : k = 0 ∨ k = 1 ∨ k = 2 ∨ k = 3 ∨ k = 4 ∨ k = 5 := by omega
+    rcases this with h | h | h | h | h | h <;> subst h <;> simp at hp <;> omega
+  · intro ⟨h0, h5⟩
+    have : l = 0 ∨ l = 1 ∨ l = 2 ∨ l = 3 ∨ l = 4 ∨ l = 5 := by omega
+    rcases this with h | h | h | h | h | h <;> subst h <;> decide
+
+theorem key_param (k : CoseKey) (l : Int) (v : Value) :
+    (keyParamReserved l = true → ∃ s, KeyOp.apply k (.param l v) = .panic s) ∧
+    (keyParamReserved l = false → KeyOp.apply k (.param l v) = .next { k with params := k.params ++ [(.int l, v)] }) := by
+  constructor <;> intro h <;> simp [KeyOp.apply, h]
+
+theorem claim_guard (k : Nat) : claimReserved k = true ↔ (1 ≤ Reg.cwtClaimName.toI64 k ∧ Reg.cwtClaimName.toI64 k ≤ 7) := by
+  simp [claimReserved, Registry.toI64, Reg.cwtClaimName, Gen.CwtClaimName, Gen.idx_CwtClaimName_Iss, Gen.idx_CwtClaimName_Cti]
+
+theorem claims_guards (c : ClaimsSet) (k : Nat) (id : Int) (v : Value) :
+    (claimReserved k = true → ∃ s, ClaimsOp.apply c (.claim k v) = .panic s) ∧
+    (claimReserved k = false → ClaimsOp.apply c (.claim k v) = .next { c with rest := c.rest ++ [(.assigned k, v)] }) ∧
+    (¬ id < -65536 → ∃ s, ClaimsOp.apply c (.privateClaim id v) = .panic s) ∧
+    (id < -65536 → ClaimsOp.apply c (.privateClaim id v) = .next { c with rest := c.rest ++ [(.privateUse id, v)] }) := by
+  refine ⟨?_, ?_, ?_, ?_⟩
+  · intro h; simp [ClaimsOp.apply, h]
+  · intro h; simp [ClaimsOp.apply, h]
+  · intro h; simp [ClaimsOp.apply, Registry.private?, Reg.cwtClaimName, Gen.CwtClaimName_isPrivate, h]
+  · intro h; simp [ClaimsOp.apply, Registry.private?, Reg.cwtClaimName, Gen.CwtClaimName_isPrivate, h]
+
+/-! ### key constructors populate exactly the key type and parameters they name -/
+theorem constructors (curve : Nat) (x y d kb : Bytes) (ys : Bool) :
+    newEc2PubKey curve x y = ⟨.assigned Gen.idx_KeyType_EC2, [], none, [], [],
+      [(.int (-1), .int (Reg.ellipticCurve.toI64 curve)), (.int (-2), .bytes x), (.int (-3), .bytes y)]⟩ ∧
+    newEc2PubKeyYSign curve x ys = ⟨.assigned Gen.idx_KeyType_EC2, [], none, [], [],
+      [(.int (-1), .int (Reg.ellipticCurve.toI64 curve)), (.int (-2), .bytes x), (.int (-3), .bool ys)]⟩ ∧
+    newEc2PrivKey curve x y d = ⟨.assigned Gen.idx_KeyType_EC2, [], none, [], [],
+      [(.int (-1), .int (Reg.ellipticCurve.toI64 curve)), (.int (-2), .bytes x), (.int (-3), .bytes y), (.int (-4), .bytes d)]⟩ ∧
+    newSymmetricKey kb = ⟨.assigned Gen.idx_KeyType_Symmetric, [], none, [], [], [(.int (-1), .bytes kb)]⟩ ∧
+    newOkpKey = ⟨.assigned Gen.idx_KeyType_OKP, [], none, [], [], []⟩ := by
+  refine ⟨?_, ?_, ?_, ?_, ?_⟩ <;> simp [newEc2PubKey, newEc2PubKeyYSign, newEc2PrivKey, newSymmetricKey, newOkpKey, CoseKey.default,
+    Registry.toI64, Reg.ec2KeyParameter, Reg.symmetricKeyParameter, Gen.Ec2KeyParameter, Gen.SymmetricKeyParameter,
+    Gen.idx_Ec2KeyParameter_Crv, Gen.idx_Ec2KeyParameter_X, Gen.idx_Ec2KeyParameter_Y, Gen.idx_Ec2KeyParameter_D,
+    Gen.idx_SymmetricKeyParameter_K, ktyReservedIdx]
+
+theorem key_types_named : Reg.keyType.toI64 Gen.idx_KeyType_EC2 = 2 ∧ Reg.keyType.toI64 Gen.idx_KeyType_Symmetric = 4 ∧
+    Reg.keyType.toI64 Gen.idx_KeyType_OKP = 1 := by decide
+
+/-- non-vacuity: iv then partial_iv leaves only the partial IV; value(7) panics, value(8) is appended. -/
+example : (runOps HeaderOp.apply [.iv [1], .partialIv [2]] Header.default 0).1 = .next (.mk none [] none [] [] [2] [] []) := by
+  simp [runOps, HeaderOp.apply, Header.default, Header.setIv, Header.setPartialIv]
+example : ∃ s, HeaderOp.apply Header.default (.value 7 .null) = .panic s := (header_apply _ _).2 (by simp [headerEffect])
+
+#print axioms header_value_guard
+#print axioms header_apply
+#print axioms iv_exclusive_step
+#print axioms iv_exclusive
+#print axioms iv_exclusive_from_new
+#print axioms header_setter_overrides
+#print axioms header_setters_commute
+#print axioms sign1_setter_frame
+#print axioms protected_discards_original
+#print axioms protected_discards_original_all
+#print axioms adders_append
+#print axioms key_param_guard
+#print axioms key_param
+#print axioms claim_guard
+#print axioms claims_guards
+#print axioms constructors
+#print axioms key_types_named
 
 end Coset.Props.C19
